@@ -93,7 +93,7 @@ theorem seek_unbounded (hdr ihdr : Bytes) (dir : Dir) (s : Sess) (e : Entry) (es
   simp only [h1, h2, h3, if_false]
   have h4 : ¬ (s.d.dataLen < lineSize s.d.p) := by
     rw [hdl, Nat.mul_add]; omega
-  simp only [h4, if_false, refine, refineStart, refineEnd, lineStart, Nat.zero_add, bind, Except.bind, pure, Except.pure]
+  simp only [startAreaOf, endAreaOf, List.head?_cons, h4, if_false, refine, refineStart, refineEnd, lineStart, Nat.zero_add, bind, Except.bind, pure, Except.pure]
   have h5 : s.d.dataLen - lineSize s.d.p + lineSize s.d.p = s.d.dataLen := by omega
   have h6 : ¬ (s.d.dataLen ≤ metaSize s.d.p) := by
     rw [hdl, Nat.mul_add, Nat.mul_add]; omega
